@@ -100,6 +100,20 @@ func (r *Run) foreignCountersign(t *tape.Tape, parent *ForeignParent, depth int,
 			frag.Elems = append(frag.Elems, refcbor.Uint(uint64(label)), list)
 			r.Probe("foreign-countersig-list")
 		}
+		if parent.Kind != refcose.PSign1 && t.Bool(1, 8, "fcsig.bothgenerations") {
+			// countersigned by an RFC 8152 party and by an RFC 9338 party: the
+			// old label (7) and the new one (11) side by side in one bucket -
+			// two different parameters
+			other := int64(refcose.LCsig)
+			if label == refcose.LCsig {
+				other = refcose.LCsigV2
+			}
+			frag.Elems = append(frag.Elems, refcbor.Uint(uint64(other)), objs[0])
+			cp := *nodes[0]
+			cp.Label, cp.Index = other, 0
+			nodes = append(nodes, &cp)
+			r.Probe("foreign-countersig-both-generations")
+		}
 	}
 	if withAbbrev && t.Bool(1, 4, "fcsig.abbrev") {
 		key := pickCheapKey(t)
